@@ -241,7 +241,9 @@ EXPLANATION = {
            "-target * ln(output) / leading dimension, Dense::forward = activation?(matmul((x, false), (weights, true), Some(biases))), "
            "Conv::forward = activation?(conv(x, filters, stride) + biases), Model::forward applies every layer once, first to last, each to "
            "the previous result, and Model::backward returns sum_all(cost(stored output, target)) (R34). Decides that the right function is "
-           "applied to the right arguments in the right order; does NOT decide what matmul / conv compute (C05 / C06).",
+           "applied to the right arguments in the right order; on a finite grid of layer sizes, evaluated in the shape slice, Dense::forward returns "
+           "[batch, outputs] and refuses every other batch width, Conv::forward returns [filters, window rows, window cols] for every fitting "
+           "geometry (R55l). Does NOT decide what matmul / conv compute (C05 / C06).",
     "C16": "(R41: the multi-index -> flat index fold is the row-major position for every rank 1..4 and every pattern of unit dimensions, evaluated on symbolic lists in an exact algebra.) Clause-level static verdict: all refusal clauses via the constructor funnel and its dominating assertions plus no later "
            "write (R16,R3), and equality reads exactly dimensions and values as a conjunction (R17). Does NOT decide index arithmetic.",
     "C17": "(R44: a derivative closure stores nothing computed from its adjoint into captured interior-mutable state.) Clause-level static verdict: linearity type system over every built-in backward closure and the engine's delta path "
